@@ -5,7 +5,8 @@
 Require Import Arith List Bool ZArith String QArith Qcanon.
 From TK Require Import Mat_Sums Mat_Core Mat_Qc Equiv_Model Equiv_Spec Equiv_SpecExec
      Equiv_Proof_Perm Equiv_Proof_Rigid Equiv_Proof_Spectral Equiv_Proof_Affine Equiv_Proof_Knn
-     Equiv_Proof_Exec Equiv_Proof_Align Knn_Spec Conn_Model Conn_Spec Conn_Proof_Main Statics.
+     Equiv_Proof_Exec Equiv_Proof_Align Equiv_Proof_Scale Equiv_Effects Equiv_Proof_Effects
+     Knn_Spec Conn_Model Conn_Spec Conn_Proof_Main Statics.
 Import ListNotations.
 Local Open Scope nat_scope.
 
@@ -417,3 +418,38 @@ Lemma main_perm_laplacian_eigenmaps : forall F (Fo : FieldOps F) (Ff : IsField F
   geig_answer n d (lap_L n (pnbrs p q nb) h') (mdiag (lap_D n (pnbrs p q nb) h')) (perm_rows q V) lam /\
   rows_permuted n d q V (perm_rows q V).
 Proof. intros F Fo Ff. exact (@laplacian_eigenmaps_perm F Fo Ff). Qed.
+
+(* ---- wave 2: centerMatrix and scales; the process state and draw-free calls ---- *)
+Lemma main_scale_center_matrix : forall F (Fo : FieldOps F) (Ff : IsField F) n c (M : mat F) i j,
+  of_nat n <> 0%F -> center_matrix n (mscale c M) i j = mscale c (center_matrix n M) i j.
+Proof. intros F Fo Ff. exact (@center_matrix_scale F Fo Ff). Qed.
+
+Lemma main_center_skip_exact_harmless : forall F (Fo : FieldOps F) (Ff : IsField F) small n (M : mat F),
+  of_nat n <> 0%F -> (forall x, small x = true -> x = 0%F) ->
+  meq n n (center_matrix_skip small n M) (center_matrix n M).
+Proof. intros F Fo Ff. exact (@center_skip_exact_harmless F Fo Ff). Qed.
+
+Lemma main_center_skip_absolute_refuted :
+  exists n (M : mat Qc) (c : Qc) i j, i < n /\ j < n /\ c <> 0%F /\
+    center_matrix_skip small_abs n (mscale c M) i j <> mscale c (center_matrix_skip small_abs n M) i j.
+Proof. exact center_skip_absolute_refuted. Qed.
+
+Lemma main_draw_free_call_state_independent : forall A (p : prog A) s,
+  effects p s = 0 ->
+  forall s', fst (run p s') = fst (run p s) /\ effects p s' = 0 /\
+             ps_pos (snd (run p s')) = ps_pos s' /\ ps_shuf (snd (run p s')) = ps_shuf s'.
+Proof. exact no_effects_state_independent. Qed.
+
+Lemma main_draw_free_call_history_independent : forall A (h : list (prog unit)) (p : prog A) s0,
+  effects p s0 = 0 -> forall s, fst (run_history h p s) = fst (run p s0).
+Proof. exact no_effects_history_independent. Qed.
+
+Lemma main_logger_never_matters : forall A (p : prog A) s s',
+  same_streams s s' ->
+  fst (run p s) = fst (run p s') /\ effects p s = effects p s' /\
+  same_streams (snd (run p s)) (snd (run p s')).
+Proof. exact logger_blind. Qed.
+
+Lemma main_drawing_call_depends_on_state_refuted :
+  exists (p : prog nat) s s', effects p s = 1 /\ fst (run p s) <> fst (run p s').
+Proof. exact draw_depends_on_state_refuted. Qed.
